@@ -200,3 +200,88 @@ def coq_records(recs):
         items.append("{| s_name := %s; s_flag := %d; s_pos := %d%%nat; s_cigar := %s; s_seq := %s |}" % (
             cm.cbytes(r["name"].encode()), r["flag"], r["pos"], cig, cm.cbytes(r["seq"].encode())))
     return "[" + ";".join(items) + "]"
+
+
+# ---------------------------------------------------------------- toPairAlign (C02): non-conflicting blocks + oracle
+
+def insertions_of(rec):
+    """[(reference bases to the left, inserted bases)] of one record."""
+    out = []
+    r, q = rec["pos"], 0
+    for o, l in rec["cigar"]:
+        if o == "I":
+            out.append((r, rec["seq"][q:q + l]))
+            q += l
+        elif o in "M=X":
+            r += l
+            q += l
+        elif o == "S":
+            q += l
+        elif o in "DN":
+            r += l
+    return out
+
+
+def nonconflicting(block):
+    """The statement's precondition: insertion positions pairwise distinct across (and within) the records of a block."""
+    seen = set()
+    for rec in block:
+        for p, _ in insertions_of(rec):
+            if p in seen:
+                return False
+            seen.add(p)
+    return True
+
+
+def make_query_topa(rng, ref, name):
+    """1-3 records of one query with agreeing bases and pairwise distinct insertion positions."""
+    for _ in range(50):
+        recs = make_query(rng, ref, name, conflict=False, rich=rng.random() < 0.7)
+        if nonconflicting(recs):
+            return recs
+    return make_query(rng, ref, name, nrec=1, rich=False)
+
+
+def expected_pair(block, ref, start=-1, end=-1, skip_ins=False):
+    """(reference row, query row) from the statement."""
+    n = len(ref)
+    qpad = expected_row(block, n, pad=True)
+    if skip_ins:
+        R, Q = list(ref), list(qpad)
+        cols = list(range(n))
+    else:
+        ins = {}
+        for rec in block:
+            for p, s in insertions_of(rec):
+                ins[p] = s
+        R, Q, cols = [], [], []
+        for p in range(n + 1):
+            if p in ins:
+                R += ["-"] * len(ins[p])
+                Q += list(ins[p])
+            if p < n:
+                cols.append(len(R))
+                R.append(ref[p])
+                Q.append(qpad[p])
+    if start != -1 or end != -1:
+        s = 1 if start == -1 else start
+        e = n if end == -1 else end
+        a, b = cols[s - 1], cols[e - 1] + 1
+        R, Q = R[a:b], Q[a:b]
+    return "".join(R), "".join(Q)
+
+
+def wrap_text(s, w):
+    if w <= 0:
+        return s + "\n"
+    return "".join(s[i:i + w] + "\n" for i in range(0, len(s), w))
+
+
+def expected_topa(recs, ref, refname, wrap=0, start=-1, end=-1, omit_ref=False, skip_ins=False):
+    out = []
+    for b in blocks_of(recs):
+        R, Q = expected_pair(b, ref.upper(), start, end, skip_ins)
+        name = b[0]["name"]
+        txt = ("" if omit_ref else ">" + refname + "\n" + wrap_text(R, wrap)) + ">" + name + "\n" + wrap_text(Q, wrap)
+        out.append((name.replace("/", "_") + ".fasta", txt))
+    return out
